@@ -4,6 +4,7 @@ import (
 	"context"
 	"errors"
 	"fmt"
+	"os"
 	"runtime"
 	"strings"
 	"time"
@@ -105,6 +106,8 @@ func runFaulted(c *core.Case, eng Engine, st *memstore.Store, faults []core.Faul
 		cancel()
 	}
 	// "block" faults wait for the context; cancel shortly after the first block begins.
+	finished := make(chan struct{})
+	defer close(finished)
 	for _, f := range faults {
 		if f.Kind == "block" {
 			go func() {
@@ -112,9 +115,17 @@ func runFaulted(c *core.Case, eng Engine, st *memstore.Store, faults []core.Faul
 					if sess.AnyFired() {
 						break
 					}
-					time.Sleep(50 * time.Microsecond)
+					select {
+					case <-finished:
+						return
+					case <-time.After(50 * time.Microsecond):
+					}
 				}
-				time.Sleep(300 * time.Microsecond)
+				select {
+				case <-finished:
+					return
+				case <-time.After(300 * time.Microsecond):
+				}
 				cancel()
 			}()
 			break
@@ -264,9 +275,17 @@ func sweep(c *core.Case, kinds []string, classes []string, judge func(kind strin
 	}
 	counts, total := base.sess.Counts()
 	evals := 1
+	var slowest time.Duration
+	slowestFault := ""
 	nonExecGo := 0
 	fired := 0
 	for _, kind := range kinds {
+		if os.Getenv("VERIF_DEBUG_SWEEP") != "" {
+			if f, ferr := os.OpenFile("/tmp/sweep-debug.log", os.O_APPEND|os.O_CREATE|os.O_WRONLY, 0o644); ferr == nil {
+				fmt.Fprintf(f, "%s begin kind %s evals=%d\n", time.Now().Format("15:04:05.000"), kind, evals)
+				f.Close()
+			}
+		}
 		cls := classes
 		if cls == nil {
 			cls = []string{"any"}
@@ -287,11 +306,28 @@ func sweep(c *core.Case, kinds []string, classes []string, judge func(kind strin
 					k2 := k + 1 + c.Fault.K%(n-k+1)
 					fs = append(fs, core.Fault{Kind: kind, Class: class, K: k2})
 				}
+				tr := time.Now()
 				o := runFaulted(c, eng, st, fs, 0)
+				if d := time.Since(tr); os.Getenv("VERIF_DEBUG_SWEEP") != "" && d > 100*time.Millisecond {
+					if f, ferr := os.OpenFile("/tmp/sweep-debug.log", os.O_APPEND|os.O_CREATE|os.O_WRONLY, 0o644); ferr == nil {
+						fmt.Fprintf(f, "slow runFaulted %v: total %v exec %v\n", fs, d, o.elapsed)
+						f.Close()
+					}
+				}
 				evals++
 				if !o.returned {
 					return core.Verdict{Status: "violation", Features: feats, Evals: evals,
 						Detail: fmt.Sprintf("%sfault %v: Exec did not return within %s; goroutines:\n%s", caseHdr(c), fs, execBound, o.dump)}
+				}
+				if o.elapsed > slowest {
+					slowest = o.elapsed
+					slowestFault = fmt.Sprint(fs)
+				}
+				if os.Getenv("VERIF_DEBUG_SWEEP") != "" && o.elapsed > 20*time.Millisecond {
+					if f, ferr := os.OpenFile("/tmp/sweep-debug.log", os.O_APPEND|os.O_CREATE|os.O_WRONLY, 0o644); ferr == nil {
+						fmt.Fprintf(f, "slow execution %v: %v fired=%v err=%v\n", fs, o.elapsed, o.fired, o.res.Err)
+						f.Close()
+					}
 				}
 				if o.fired {
 					fired++
@@ -299,7 +335,15 @@ func sweep(c *core.Case, kinds []string, classes []string, judge func(kind strin
 						nonExecGo++
 					}
 				}
-				if msg := judge(kind, fs, base, o); msg != "" {
+				tj := time.Now()
+				msg := judge(kind, fs, base, o)
+				if d := time.Since(tj); os.Getenv("VERIF_DEBUG_SWEEP") != "" && d > 20*time.Millisecond {
+					if f, ferr := os.OpenFile("/tmp/sweep-debug.log", os.O_APPEND|os.O_CREATE|os.O_WRONLY, 0o644); ferr == nil {
+						fmt.Fprintf(f, "slow judge %v: %v goroutines=%d base=%d\n%s\n", fs, d, runtime.NumGoroutine(), baseGoroutines, strings.Join(engineGoroutines(), "\n--\n"))
+						f.Close()
+					}
+				}
+				if msg != "" {
 					return core.Verdict{Status: "violation", Features: feats, Evals: evals,
 						Detail: fmt.Sprintf("%sfault %v (callback %d of %d, fired=%v on goroutine %d, Exec on %d): %s\nresult: %s\nfault-free: %s\n", caseHdr(c), fs, o.firedAt, total, o.fired, o.firedGo, o.execGo, msg, o.res, base.res)}
 				}
@@ -312,7 +356,7 @@ func sweep(c *core.Case, kinds []string, classes []string, judge func(kind strin
 	if !after.returned {
 		return core.Verdict{Status: "violation", Detail: caseHdr(c) + "a fault-free execution after the faulted ones did not return\n" + after.dump, Features: feats}
 	}
-	if d := equalOrTie(c, expr, st, after.res, base.res, oracle.DefaultTol(Scale(c.Series))); d != "" {
+	if d := equalOrTie(c, expr, st, after.res, base.res, TolOf(c)); d != "" {
 		return core.Verdict{Status: "violation", Detail: caseHdr(c) + "after the faulted executions the same engine answers the fault-free query differently: " + d, Features: feats}
 	}
 	if d := sameStore(snap, st.Dump()); d != "" {
@@ -322,7 +366,11 @@ func sweep(c *core.Case, kinds []string, classes []string, judge func(kind strin
 		feats = append(feats, "fault-off-exec-goroutine")
 	}
 	feats = append(feats, fmt.Sprintf("callbacks:%s", bucket(total)))
-	return core.Verdict{Status: "ok", Nontrivial: nonExecGo > 0 || (fired > 0 && len(classes) > 0), Features: feats, Evals: evals}
+	if slowest > 500*time.Millisecond {
+		feats = append(feats, "slowest-exec>500ms")
+	}
+	_ = slowestFault
+	return core.Verdict{Status: "ok", Nontrivial: nonExecGo > 0 || (fired > 0 && len(classes) > 0 && classes[0] != "any"), Features: feats, Evals: evals}
 }
 
 func bucket(n int) string {
@@ -338,7 +386,7 @@ func bucket(n int) string {
 }
 
 func init() {
-	tolOf := func(c *core.Case) oracle.Tol { return oracle.DefaultTol(Scale(c.Series)) }
+	tolOf := func(c *core.Case) oracle.Tol { return TolOf(c) }
 
 	// C13 (fault half): a runtime panic at the k-th storage callback, for every k.
 	register("C13", func(c *core.Case) core.Verdict {
@@ -349,7 +397,7 @@ func init() {
 		tol := tolOf(c)
 		eng2 := NewEngine(c.Lookback, c.Opt, false)
 		_ = eng2
-		return sweep(c, []string{"panic"}, nil, func(kind string, f []core.Fault, base, o faultOutcome) string {
+		return sweep(c, []string{"panic"}, []string{"any", "labels", "iterator", "seek"}, func(kind string, f []core.Fault, base, o faultOutcome) string {
 			if o.res != nil && o.res.Err != nil && strings.HasPrefix(o.res.Err.Error(), "PANIC-ESCAPED") {
 				return "panic escaped from Exec: " + o.res.Err.Error()
 			}
@@ -458,7 +506,7 @@ func init() {
 			return v
 		}
 		// deadline variant: a context deadline in the middle of the evaluation
-		if c.Delay > 0 {
+		if c.Note == "deadline" {
 			st := memstore.New(c.Series)
 			eng := NewEngine(c.Lookback, c.Opt, false)
 			base := runFaulted(c, eng, st, nil, 0)
